@@ -7,7 +7,7 @@ import common as C
 import coreprop
 
 PID = "C02"
-LEAN_MODULES = ['Verif.Inv.Kernel', 'Verif.Inv.Wheel', 'Verif.Props.C02']
+LEAN_MODULES = ['Verif.Inv.Kernel', 'Verif.Inv.Wheel', 'Verif.Inv.ReadyQ', 'Verif.Inv.LogMono', 'Verif.Props.C02']
 # the cross-thread causes rest on the wake invariants proved in Verif.Props.C03 / C04 / C10 (checked by those properties' runs)
 PROFILES = ['all', 'fd', 'timers']
 TRUSTED_BASE = [
